@@ -1,10 +1,11 @@
 /-
 C16 — line protocol of the whole model: part B (views, rounding, array iterator), part S
-(spline prefilter), then the base protocol of `Model/C16.lean`.
+(spline prefilter), part L, part K (kernels as regenerated from the C text), then the base protocol of `Model/C16.lean`.
 -/
 import NipyVerif.Model.C16B
 import NipyVerif.Model.C16S
 import NipyVerif.Model.C16L
+import NipyVerif.Model.C16K
 namespace NipyVerif.C16
 
 def runAll (ts : Toks) : String :=
@@ -16,6 +17,9 @@ def runAll (ts : Toks) : String :=
     | none =>
       match runL ts with
       | some s => s
-      | none => run ts
+      | none =>
+        match runK ts with
+        | some s => s
+        | none => run ts
 
 end NipyVerif.C16
